@@ -61,6 +61,7 @@ class Model:
         self.inherit = {k: True for k in cl_bases}
         self.direct = {o: [] for o in objs}
         self.cdirect = {k: [] for k in cl_bases}
+        self.specrefs = {k: [] for k in cl_bases}    # classes whose specification k declares
 
     def mro(self, k):
         # only used for membership: any order is fine
@@ -73,10 +74,17 @@ class Model:
 
     def impl(self, k):
         s = closure(self.decl[k])
+        for x in self.specrefs.get(k, ()):
+            s |= self.impl(x)
         if self.inherit[k]:
             for b in self.bases[k]:
                 s |= self.impl(b)
         return s
+
+    def cispec(self, k, x):
+        # classImplements(K, implementedBy(X)): K implements whatever X implements, live
+        if x not in self.specrefs[k] and x not in self.mro(k):
+            self.specrefs[k].append(x)
 
     def prov(self, o):
         return closure(self.direct[o]) | self.impl(self.objs[o])
@@ -103,6 +111,7 @@ class Model:
 
     def cio(self, k, *ifs):
         self.decl[k] = []
+        self.specrefs[k] = []
         self.inherit[k] = False
         self._add_cls(k, list(ifs), [])
 
@@ -149,6 +158,7 @@ class Model:
 
     def newsub(self, k):
         self.bases['E'] = (k,)
+        self.specrefs['E'] = []
         self.decl['E'] = []
         self.inherit['E'] = True
         self.cdirect['E'] = []
@@ -163,7 +173,7 @@ class Model:
         self.direct[o] = []
 
     def key(self):
-        return (sorted(self.decl.items()), sorted(self.inherit.items()),
+        return (sorted(self.decl.items()), sorted(self.specrefs.items()), sorted(self.inherit.items()),
                 sorted(self.direct.items()), sorted(self.cdirect.items()),
                 sorted(self.objs.items()))
 
@@ -214,6 +224,8 @@ class World:
             classImplementsOnly(K[op[1]], *[I[x] for x in op[2:]])
         elif t == 'ciok':
             classImplementsOnly(K[op[1]], I[op[2]], implementedBy(K[op[1]]))
+        elif t == 'cispec':
+            classImplements(K[op[1]], implementedBy(K[op[2]]))
         elif t == 'implonly':
             t = 'cio'
             implementer_only(*[I[x] for x in op[2:]])(K[op[1]])
@@ -357,6 +369,8 @@ def alphabet(cfg, hist):
     insts = list(objs)
     has_e = any(op[0] == 'newsub' for op in hist)
     has_n = any(op[0] == 'newinst' for op in hist)
+    if cfg.get('ops'):
+        return [tuple(o) for o in cfg['ops']]
     focus = cfg.get('focus')
     ops = []
     for k in classes + (['E'] if has_e else []):
@@ -451,6 +465,13 @@ CFG = {
     'chain3': dict(world='chain3', sub='C', kill=['c1'], cls_subjects=[], extras=False),
     'tree-classes': dict(world='tree', sub='B', kill=[], cls_subjects=[], extras=False,
                          focus=['A', 'B', 'b1']),
+    # one class declares another class's *specification*: it implements whatever
+    # that class implements, for as long as it does
+    'declared-class-spec': dict(world='tree', sub='B', kill=[], cls_subjects=[], extras=False,
+                                ops=[('ci', 'C', 'I0'), ('ci', 'C', 'I1'), ('cio', 'C'), ('cio', 'C', 'I2'),
+                                     ('cispec', 'B', 'C'), ('dp', 'b1', 'I0'), ('dp', 'b2', 'I0'),
+                                     ('dp', 'b1', 'I1'), ('ap', 'b2', 'I0'), ('dp', 'b1'), ('Q',),
+                                     ('ci', 'B', 'I2'), ('cio', 'B')]),
     'stacked-diamonds': dict(world='stacked-diamonds', sub='X', kill=[], cls_subjects=[], extras=False,
                              focus=['A', 'C', 'X', 'x1']),
 }
@@ -466,14 +487,16 @@ def run(ctx):
                 ('redundant-base', 2, ['C', 'B', 'b2'], 1),
                 ('chain3', 3, ['c2'], 1),
                 ('tree-classes', 4, None, 0),
-                ('stacked-diamonds', 3, None, 0)]
+                ('stacked-diamonds', 3, None, 0),
+                ('declared-class-spec', 5, None, 0)]
     else:
         plan = [('tree', 4, ['B', 'b2'], 1),
                 ('diamond', 3, ['C', 'D', 'd2'], 1),
                 ('redundant-base', 3, ['C', 'B', 'b2'], 1),
                 ('chain3', 4, ['c2'], 1),
                 ('tree-classes', 5, None, 0),
-                ('stacked-diamonds', 4, None, 0)]
+                ('stacked-diamonds', 4, None, 0),
+                ('declared-class-spec', 6, None, 0)]
     if 'depth' in ctx.opts:
         plan = [(p[0], int(ctx.opts['depth']), p[2], int(ctx.opts.get('extra', p[3])))
                 for p in plan]
